@@ -27,7 +27,7 @@ ASSUMPTIONS = [
 ]
 MUTATORS = [
     "none", "none", "none", "op-rotate", "op-drop-first", "mn-as-op", "op-as-mn", "insert", "delete", "swap",
-    "hexword", "later-operand", "next-inst", "too-many-ops", "extra-trailing-op", "edge-window", "unrelated", "hex-h-name",
+    "hexword", "later-operand", "next-inst", "too-many-ops", "extra-trailing-op", "edge-window", "unrelated", "hex-h-name", "int-name",
 ]
 FLOORS = {"expect=found": 0.30, "near-miss": 0.30}
 for _m in set(MUTATORS) - {"none", "unrelated"}:
@@ -177,6 +177,33 @@ def cases(draw):
         for q, o in enumerate(rec[3]):
             if o == v:
                 ops.append(asked[2:] + "h")
+            else:
+                d = describe_operand(draw, o)
+                if d is None:
+                    break
+                ops.append(d)
+        pattern[k] = {name: ops}
+    elif mut == "int-name":
+        # an operand name that YAML types as an integer (unquoted 16, 255, -8): it is the literal text "16" - it occurs in $0x16 and
+        # $16, not in $0x10 although 0x10 is its value
+        k = draw(st.integers(0, len(pattern) - 1))
+        n_ = draw(st.sampled_from([16, 255, 10, 8, 100, 32, 18, -8, 64]))
+        shown = draw(st.sampled_from([format(abs(n_), "x"), str(abs(n_)), str(abs(n_)) + "0", format(abs(n_), "x")]))
+        v = ("-" if n_ < 0 else "") + "0x" + shown
+        other = draw(st.sampled_from(OPERANDS))
+        rec = L[i + k]
+        if n_ < 0:
+            rec[2], rec[3] = [v + "(%rbp)", other[0]], ["[%rbp+" + v + "]", other[1]]
+        elif draw(st.booleans()):
+            rec[2], rec[3] = ["$" + v, other[0]], [v, other[1]]
+        else:
+            rec[2], rec[3] = [other[0], "$" + v], [other[1], v]
+        it = pattern[k]
+        name = it if not isinstance(it, dict) else list(it)[0]
+        ops = []
+        for q, o in enumerate(rec[3]):
+            if v in o:
+                ops.append(n_)
             else:
                 d = describe_operand(draw, o)
                 if d is None:
